@@ -54,6 +54,12 @@ impl FangsList {
         }
     }
 
+    /// whether both lists hold the same fangs in the same order
+    pub(super) fn is_same_as(&self, another: &Self) -> bool {
+        self.0.len() == another.0.len() &&
+        self.0.iter().zip(&another.0).all(|((a, _), (b, _))| a == b)
+    }
+
     /// yield from most inner fangs
     fn into_iter(self) -> impl Iterator<Item = Arc<dyn Fangs>> {
         self.0.into_iter()
